@@ -2,4 +2,4 @@ import Driver.Run
 import Driver.Fam.Heap
 open Driver
 /-- families of area "heap" -/
-def main (args : List String) : IO UInt32 := run [Fam.heapscan, Fam.infomask, Fam.heapmut, Fam.pagedirect, Fam.tupledirect, Fam.heapconcat] args
+def main (args : List String) : IO UInt32 := run [Fam.heapscan, Fam.infomask, Fam.heapmut, Fam.pagedirect, Fam.tupledirect, Fam.heapconcat, Fam.heapraw] args
